@@ -33,7 +33,7 @@ BUDGETS = {
     "C04": {"quick": (16000, 55), "thorough": (300000, 900)},
     "C05": {"quick": (1600, 45), "thorough": (40000, 900)},
     "C06": {"quick": (16000, 55), "thorough": (300000, 900)},
-    "C07": {"quick": (60000, 50), "thorough": (1500000, 900)},
+    "C07": {"quick": (200000, 50), "thorough": (1500000, 900)},
     "C09": {"quick": (40000, 55), "thorough": (800000, 900)},
     "C13": {"quick": (6000, 55), "thorough": (150000, 900)},
     "C14": {"quick": (80000, 50), "thorough": (2000000, 900)},
